@@ -360,7 +360,7 @@ func init() {
 	core.Register(&core.Prop{
 		ID:    "C11",
 		Level: "fault_enumeration",
-		Rule: "fault enumeration of one cache fill: for files of 1, 511, 512, 513, 1500, 5000 bytes and four cache stores (only Open+OpenFile+Mkdir / everything mem.FS has, each also as a write-back store whose failing Close keeps only half of the written data) the calls of a clean first Open are counted (source Read, store OpenFile, each store Write, store Close) and the Open is repeated on a fresh cache once per index with that call failing: the Open must report an error, and three later fault-free Opens must each either fail or deliver exactly the source bytes; the cache store's own copy is inspected as well. " +
+		Rule: "fault enumeration of one cache fill: for files of 1, 511, 512, 513, 1500, 5000 bytes and four cache stores (only Open+OpenFile+Mkdir / everything mem.FS has, each also as a write-back store whose failing Close keeps only half of the written data) the calls of a clean first Open are counted (source Read, store OpenFile, each store Write, store Close) and the Open is repeated on a fresh cache once per index with that call failing: the Open must report an error, and three later fault-free Opens must each either fail or deliver exactly the source bytes; the cache store's own copy is inspected as well. The failing SOURCE call reports, in further cases, one of nine other error values (io.ErrUnexpectedEOF, values wrapping ErrNotImplemented, context.Canceled, ErrNotExist, ErrPermission, ErrExist, io.EOF, io.ErrShortWrite, io.ErrClosedPipe); (pair-after-failure) after a fill failed at each of its copy calls, two other files are opened for the first time at once, their copies in lockstep at the store's Write: both are served and cached with their own bytes. " +
 			"Concurrency (race detector on): 2..4 goroutines open one uncached name while a gate in the source's Read pauses the copy at a chosen chunk boundary until the others are inside Open (gated), or run freely (free); every successful Open is read to the end and compared with the source, and the number of simultaneously open write handles per name in the cache store (copies in progress) must never exceed 1. Non-trivial: fault runs in which the fault fired / concurrent groups with >=2 successful opens; distinct by case parameters and fault index",
 		Assumptions: []string{"a single fault per fill", "the source is immutable"},
 		NumCases:    func(env *core.Env) int { return len(c11cases(env)) },
